@@ -62,7 +62,7 @@ func in(s string, set ...string) bool {
 }
 
 // primitive receiver / argument kinds (not undefined / null)
-var primitiveKinds = []string{"true", "false", "0", "1", "-1", "1.5", "NaN", "Infinity", "2^32", "1e21", "str-empty", "str-abc", "str-nonbmp"}
+var primitiveKinds = []string{"true", "false", "0", "1", "-1", "1.5", "NaN", "Infinity", "2^32", "1e21", "str-empty", "str-abc", "str-nonbmp", "str-u16", "str-lone"}
 
 // object receiver kinds that are not String objects
 var nonStringObjectKinds = []string{"object", "nullproto", "frozen", "array", "holey", "arguments", "function", "bound", "date", "date-invalid",
@@ -310,4 +310,58 @@ var signatureTable = map[string]func(a aux) bool{
 		}
 		return false
 	},
+
+	// NEW (C02-tofloat-utf16-string.diff): ToNumber of a []uint16-backed string.
+	"c02-tofloat-utf16": func(a aux) bool {
+		return a["site"] == "Value.float64" && strings.HasSuffix(a["panic"], "toFloat([]uint16)") && a["phase"] != "fatal" &&
+			(usesU16(a) || strings.Contains(a["src"], "fromCharCode"))
+	},
+
+	// NEW (C02-regexp-prototype-payload.diff): RegExp.prototype as the regexp.
+	"c02-regexp-prototype-nil": func(a aux) bool {
+		if a["class"] != "nil-deref" || !strings.HasPrefix(a["via"], "regexp.(*Regexp).") {
+			return false
+		}
+		switch a["site"] {
+		case "execRegExp":
+			return in(a["fn"], "RegExp.prototype.exec", "RegExp.prototype.test", "String.prototype.match") &&
+				(a["recv"] == "proto-RegExp" || argAt(a, 0) == "proto-RegExp")
+		case "builtinStringSearch", "builtinStringReplace", "builtinStringSplit", "builtinStringMatch":
+			return strings.HasPrefix(a["fn"], "String.prototype.") && argAt(a, 0) == "proto-RegExp"
+		}
+		return false
+	},
+
+	// NEW (C02-function-ctor-wrapper-escape.diff)
+	"c02-function-ctor-wrapper-escape": func(a aux) bool {
+		return a["group"] == "function" && a["class"] == "interface-conversion" && a["site"] == "parser.ParseFunction" &&
+			strings.Contains(a["panic"], "not *ast.FunctionLiteral") && (strings.Contains(a["src"], "){") || strings.Contains(a["src"], "})"))
+	},
+
+	// NEW (C02-direct-eval-depth.diff)
+	"c02-direct-eval-recursion": func(a aux) bool {
+		if a["form"] != "eval-direct-self" || a["d"] == "0" {
+			return false
+		}
+		// unbounded: the Go stack is exhausted; bounded but >= the limit: the
+		// recursion completes although the limit should have stopped it
+		return (a["phase"] == "fatal" && a["class"] == "stack-overflow") || (a["phase"] == "oracle" && strings.HasPrefix(a["obs"], "ok:"))
+	},
+
+	// NEW (C02-gomap-named-key.diff): reflect rejects a plain string as key of map[K]T.
+	"c02-gomap-named-key": func(a aux) bool {
+		if a["class"] != "string" || !in(a["site"], "goMapGetOwnProperty", "goMapDelete", "goMapDefineOwnProperty") {
+			return false
+		}
+		if !strings.Contains(a["panic"], "MapIndex: value of type string is not assignable to type") {
+			return false
+		}
+		return a["recv"] == "go-named-map" || a["kind"] == "go-named-map" || a["bridged"] == "nmap" || a["subject"] == "go-named-map" ||
+			strings.Contains(a["src"], bridgedName("nmap"))
+	},
+}
+
+// usesU16 reports whether the case involves one of the []uint16-backed string kinds.
+func usesU16(a aux) bool {
+	return in(a["recv"], "str-u16", "str-lone") || hasArg(a, "str-u16", "str-lone") || in(a["kind"], "str-u16", "str-lone")
 }
